@@ -18,25 +18,63 @@ class Result:
         self.model, self.reason = model, reason
 
 
+def _has_quantifier(e, _cache={}):
+    k = e.get_id()
+    if k in _cache:
+        return _cache[k]
+    todo = [e]
+    seen = set()
+    r = False
+    while todo:
+        x = todo.pop()
+        if x.get_id() in seen:
+            continue
+        seen.add(x.get_id())
+        if z3.is_quantifier(x):
+            r = True
+            break
+        todo.extend(x.children())
+    _cache[k] = r
+    return r
+
+
 def discharge(ob, timeout_ms):
     """negated obligation: unsat = discharged, sat = refuted (with model), unknown = undecided"""
     g = z3.simplify(ob.goal)
     t0 = time.time()
     if z3.is_true(g):
         return Result(ob, 'discharged', 0.0, 'z3-simplify')
-    s = z3.Solver()
-    s.set('timeout', timeout_ms)
-    for c in ob.pc:
-        s.add(c)
-    s.add(z3.Not(ob.goal))
-    r = s.check()
-    dt = time.time() - t0
-    if r == z3.unsat:
-        return Result(ob, 'discharged', dt, 'z3')
-    if r == z3.sat:
-        return Result(ob, 'refuted', dt, 'z3', model=s.model())
-    # second attempt with a different tactic configuration before handing over to cvc5
-    return Result(ob, 'unknown', dt, 'z3', reason=s.reason_unknown())
+    # portfolio over solver seeds: sequence obligations are sensitive to the search order, a proof
+    # (unsat) or a model (sat) under any seed is a verdict
+    reason = ''
+    for seed in (0, 2, 3, 5):
+        s = z3.Solver()
+        s.set('timeout', timeout_ms)
+        if seed:
+            s.set('random_seed', seed)
+        for c in ob.pc:
+            s.add(c)
+        s.add(z3.Not(ob.goal))
+        r = s.check()
+        dt = time.time() - t0
+        if r == z3.unsat:
+            return Result(ob, 'discharged', dt, 'z3' if seed == 0 else f'z3-seed{seed}')
+        if r == z3.sat:
+            return Result(ob, 'refuted', dt, 'z3', model=s.model())
+        reason = s.reason_unknown()
+    # undecided with all hypotheses: retry from fewer (the goal alone, then the quantifier-free part
+    # of the path condition); a proof from fewer hypotheses is still a proof
+    for subset, budget in ((None, 2000), ('qf', timeout_ms // 2)):
+        s0 = z3.Solver()
+        s0.set('timeout', budget)
+        if subset == 'qf':
+            for c in ob.pc:
+                if not _has_quantifier(c):
+                    s0.add(c)
+        s0.add(z3.Not(ob.goal))
+        if s0.check() == z3.unsat:
+            return Result(ob, 'discharged', time.time() - t0, 'z3-subset')
+    return Result(ob, 'unknown', time.time() - t0, 'z3', reason=reason)
 
 
 class FunctionVerifier:
@@ -103,6 +141,12 @@ class FunctionVerifier:
             p.add(ex.spec.bool(cl.ast, ctx0))
         for src in c.reveal:
             ex.spec.ev(ast.parse(f'reveal({src})', mode='eval').body, ctx0)
+        fshort0 = fq.split('.', 1)[1]
+        for n_l, src in enumerate(getattr(c, 'lemmas', []) or []):
+            # intermediate facts at function entry: proved as obligations of their own, then available
+            g = ex.spec.bool(ast.parse(src, mode='eval').body, ctx0)
+            ex.oblige(p, g, f'{fshort0}/lemma[{n_l}]', c.props, 'lemma', fi.node.lineno)
+            p.add(g)
         entry.pc = list(p.pc)
         info = {'paths_normal': 0, 'paths_raise': 0, 'vacuous': False}
         if not p.feasible():
